@@ -4,3 +4,4 @@ pub mod response;
 pub mod router;
 pub mod tokens;
 pub mod srvsuites;
+pub mod srvfds;
